@@ -496,6 +496,12 @@ def run(prog, ctx):
     from rules import common as _common
     from rules import C11 as _C11
     _common.import_obligations(ctx, prog, [_C11.a4, _C11.a4_no_entry_passed_over], "R8", "the getter reads the key asked for: ", what="lookup of the entry")
+    # ... and the text it interprets is the text that was set: a string stored without its quotes turns "42" (text) into 42 (a number)
+    _C11.a11_names_kept(prog, ctx, "R8")
+    # R9: the objects the getters are called on after a layered read are alive: the merge hands out a new object, not one of the
+    # parsed files that are released right after it (= C03.M0)
+    from rules import C03 as _C03
+    _common.import_obligations(ctx, prog, [_C03.m0_result_is_fresh], "R9", "the getters read a live object: ", what="result of the merge")
     n = 0
     for g, (width, signed, kind) in conv.GETTERS.items():
         f = prog.fn(g)
